@@ -161,8 +161,17 @@ def check(run: Run, prog: Program, model: Model, tier: str) -> None:
         it.comp_as_loop = True          # type: ignore[attr-defined]
 
         def run2(i: Interp) -> V:
-            return i.call_function(fn, [Sym("value", kind, ("param", "value"), exact=True)], {})
-        ps2 = it.run_paths(run2, max_paths=4000)
+            # a container of exactly two members of different scalar kinds that may be EQUAL (an int and a float)
+            tag = "elem" if kind == "list" else "val"
+            m0 = Sym(f"{tag}0@value", "int", ("elem", Sym("value", kind), 0), exact=True)
+            m1 = Sym(f"{tag}1@value", "float", ("elem", Sym("value", kind), 1), exact=True)
+            if kind == "list":
+                arg: V = ListV([m0, m1])
+            else:
+                arg = DictV([(Sym("key0@value", "str", ("key", Sym("value", kind), 0), exact=True), m0),
+                             (Sym("key1@value", "str", ("key", Sym("value", kind), 1), exact=True), m1)])
+            return i.call_function(fn, [arg], {})
+        ps2 = it.run_paths(run2, max_paths=2000)
         c = f"from_native(<{kind}>): member j converted from member j"
         probs: List[str] = []
         seen = 0
